@@ -901,6 +901,76 @@ PARAMS_T = {
 
 
 # ============================================================================ spec -> code
+def builtin_corrector_traces(ctx):
+    """Every built-in kernel through FastTriggs and Triggs on residual tensors that contain exactly-zero rows,
+    rows exactly at the Huber threshold and ordinary rows: J'^T R' must be sum_i rho'(|R_i|^2) J_i^T R_i with
+    rho' from the 50-digit closed form (one-sided derivative at 0), everything finite; all built-in kernels have
+    rho'' <= 0, so Triggs must coincide with FastTriggs.  Judged by LieNumTrace (corr_gradient, corr_ft_equal)."""
+    import torch
+    import mpmath as mp
+    pp = pypose()
+    from pypose.optim.corrector import FastTriggs, Triggs
+    mp.mp.dps = 50
+    rng = ctx.rng
+    kernels = [("Huber", [1.0]), ("Huber", [0.5]), ("PseudoHuber", [1.0]), ("Cauchy", [2.0]), ("SoftLOne", [1.0]),
+               ("Arctan", [1.0]), ("Tolerant", [1.0, -0.5]), ("Scale", [0.5])]
+    traces = []
+    for name, par in kernels:
+        for dname in ("float64", "float32"):
+            dt = tdtype(torch, dname)
+            eps = mp.mpf(float(eps_of(dname)))
+            for d in ([1, 3] if ctx.quick else [1, 2, 3, 6]):
+                P = rng.randint(1, 3)
+                rows = [[0.0] * d,                                                   # exactly zero residual
+                        [float(par[0])] + [0.0] * (d - 1),                           # |R| = delta exactly (Huber threshold)
+                        [0.0] * (d - 1) + [float(rng.randint(1, 3))],                # a zero component but non-zero row
+                        [float(rng.randint(-3, 3)) / 2 for _ in range(d)],
+                        [float(rng.randint(-8, 8)) for _ in range(d)]]
+                if not any(rows[3]):
+                    rows[3][0] = 0.5
+                if not any(rows[4]):
+                    rows[4][0] = 4.0
+                R = torch.tensor(rows, dtype=dt)
+                J = torch.tensor([[float(rng.randint(-3, 3)) for _ in range(P)] for _ in range(len(rows) * d)], dtype=dt)
+                kern = make_kernel(pp, name, par)
+                ev = []
+                out = {}
+                for cname, cls in (("FastTriggs", FastTriggs), ("Triggs", Triggs)):
+                    try:
+                        Rp, Jp = cls(kern)(R=R.clone(), J=J.clone())
+                        fin = bool(torch.isfinite(Rp).all() and torch.isfinite(Jp).all())
+                    except Exception as ex:
+                        ev.append({"chk": "corr_gradient", "ty": name, "dt": "f64" if dname == "float64" else "f32", "err": CAP,
+                                   "finite": False, "allow": 0, "cell": {"corr": cname, "d": d, "raised": repr(ex)[:120]}, "x": rows, "a": par})
+                        continue
+                    out[cname] = (Rp, Jp)
+                    # reference gradient with rho' from the closed form
+                    want = [mp.mpf(0)] * P
+                    for i, r in enumerate(rows):
+                        x = sum(mp.mpf(v) ** 2 for v in r)
+                        f = lambda z: reference(mp, name, par, z)[0]
+                        g1 = mp.diff(f, x, direction=1) if x == 0 else mp.diff(f, x)
+                        if name == "Huber" and x == mp.mpf(par[0]) ** 2:
+                            g1 = mp.mpf(1)        # value and slope are continuous at the threshold
+                        for c in range(P):
+                            want[c] += g1 * sum(mp.mpf(float(J[i * d + k, c])) * mp.mpf(r[k]) for k in range(d))
+                    got = (Jp.reshape(len(rows) * d, P).double().T @ Rp.reshape(-1).double()).tolist() if fin else [float("nan")] * P
+                    scale = max(max(abs(w) for w in want), mp.mpf(1))
+                    err = CAP if not fin else int(min(mp.ceil(max(abs(mp.mpf(g) - w) for g, w in zip(got, want)) / scale / eps), CAP))
+                    ev.append({"chk": "corr_gradient", "ty": name, "dt": "f64" if dname == "float64" else "f32", "err": err,
+                               "finite": fin, "allow": 0, "cell": {"corr": cname, "d": d, "P": P}, "x": rows, "a": par})
+                if len(out) == 2:
+                    (Rf, Jf), (Rt, Jt) = out["FastTriggs"], out["Triggs"]
+                    fin = bool(torch.isfinite(Rt).all() and torch.isfinite(Jt).all() and torch.isfinite(Rf).all())
+                    dmax = max(float((Rf - Rt).abs().max()), float((Jf - Jt).abs().max())) if fin else float("inf")
+                    sc = max(1.0, float(Rf.abs().max()) if fin else 1.0, float(Jf.abs().max()) if fin else 1.0)
+                    ev.append({"chk": "corr_ft_equal", "ty": name, "dt": "f64" if dname == "float64" else "f32",
+                               "err": CAP if not fin else int(min(math.ceil(dmax / sc / float(eps)), CAP)), "finite": fin, "allow": 0,
+                               "cell": {"corr": "Triggs=FastTriggs", "d": d}, "x": rows, "a": par})
+                traces.append({"cfg": {"kind": "builtin_corrector", "kernel": name, "dtype": dname}, "ev": ev})
+    return traces
+
+
 def gen_table(ctx):
     """TLC tabulates both identity sides (and Huber values) for rational instances whose corrector outputs
     are NOT dyadic; the real code is run on each instance with a quadratic kernel realising (rho', rho'')."""
@@ -1093,6 +1163,23 @@ def run(ctx):
     ctx.sample({"kind": "closed-form trace", "cfg": traces[-1]["cfg"], "ev": traces[-1]["ev"][:3]})
     verdicts = ctx.validate("KernelsTrace", "KernelsTrace.cfg", traces, "kern", chunk=400)
     judge(ctx, traces, verdicts)
+    # built-in kernels through both correctors (zero rows, threshold rows): numeric clauses of LieNumTrace
+    btr = builtin_corrector_traces(ctx)
+    wb = 0
+    for tr, v in zip(btr, ctx.validate("LieNumTrace", "LieNumTrace.cfg", btr, "bcorr", chunk=2000)):
+        for e in tr["ev"]:
+            ctx.cover("bcorr:%s:%s:%s:%s" % (tr["cfg"]["kernel"], tr["cfg"]["dtype"], e["chk"], e["cell"]))
+            if e["finite"]:
+                wb = max(wb, e["err"])
+        if v != "ok":
+            clause, at = v.split("@")
+            e = tr["ev"][int(at) - 1]
+            ctx.violation("builtin/%s/%s/%s" % (tr["cfg"]["kernel"], e["cell"].get("corr"), clause),
+                          "%s kernel through %s (%s, d=%s) on rows incl. an exactly-zero row and a row at the threshold: clause %s "
+                          "(err=%s eps-units, finite=%s)" % (tr["cfg"]["kernel"], e["cell"].get("corr"), tr["cfg"]["dtype"],
+                                                             e["cell"].get("d"), clause, e["err"], e["finite"]),
+                          {"trace": tr, "verdict": v, "spec": "LieNumTrace"})
+    ctx.extra["builtin_corrector_worst_error_eps"] = wb
 
 
 def selftest(ctx):
